@@ -7,7 +7,9 @@
      X_canonical     : decode_X bs = Ok v -> encode_X v = bs        (where true of the code;
                        X_canonical_refuted with a witness where the code as written is not canonical)
    wf_X is the boolean range predicate (integer widths, array lengths, counts
-   that fit their wire width, enum tags in range, text without separators).
+   that fit their wire width, enum tags in range, text without separators; a
+   GoldenTicket-type transaction carries a 97-byte payload, which the decoder
+   enforces since fix eeb4ec7).
    bytes_ok bs says that bs is a byte string (every element < 256).
    Hashes and signatures are computed over the decoded fields by the real code
    in the harness (c09): equal fields => equal hash / signature verdict. *)
@@ -137,7 +139,13 @@ Theorem C09_bc_request_canonical : forall bs r,
   bytes_ok bs = true -> decode_bc_request bs = Ok r -> encode_bc_request r = bs.
 Proof. exact bc_request_canonical. Qed.
 
+(* GhostChainSync::deserialize_checked (the entry point since fix 8fc45ed) and the
+   inner unchecked deserialize *)
 Theorem C09_ghost_decode_encode : forall g,
+  wf_ghost g = true -> decode_ghost_checked (encode_ghost g) = Ok g.
+Proof. exact ghost_checked_decode_encode. Qed.
+
+Theorem C09_ghost_inner_decode_encode : forall g,
   wf_ghost g = true -> decode_ghost (encode_ghost g) = Ok g.
 Proof. exact ghost_decode_encode. Qed.
 
@@ -147,7 +155,7 @@ Proof. exact ghost_size. Qed.
 
 (* any non-zero byte decodes to true; trailing bytes are ignored *)
 Theorem C09_ghost_canonical_refuted :
-  exists bs g, bytes_ok bs = true /\ decode_ghost bs = Ok g /\ encode_ghost g <> bs.
+  exists bs g, bytes_ok bs = true /\ decode_ghost_checked bs = Ok g /\ encode_ghost g <> bs.
 Proof. exact ghost_canonical_refuted. Qed.
 
 Theorem C09_api_decode_encode : forall a, wf_api a = true -> decode_api (encode_api a) = Ok a.
